@@ -285,6 +285,18 @@ Definition req_edit (g : gf) (k : key) (t : trace) (r : request) (a : list val) 
   | _ => edit g k t r a tg
   end.
 
+(* does the request contain a part the model does not predict (at any depth: under an index, a static address ...) *)
+Fixpoint has_junk (r : request) {struct r} : bool :=
+  match r with
+  | RJunk => true
+  | RIndex _ x => has_junk x
+  | RStatic m => (fix go (l : list (addr * request)) : bool :=
+                    match l with [] => false | (_, x) :: rest => has_junk x || go rest end) m
+  | RVector rs => (fix go (l : list request) : bool :=
+                     match l with [] => false | x :: rest => has_junk x || go rest end) rs
+  | RUpdate _ | RRegen _ | REmpty => false
+  end.
+
 (* what a (backward) request would restore: its constraints as one finite map *)
 Fixpoint req_flat (r : request) {struct r} : option chm :=
   match r with
